@@ -70,6 +70,16 @@ CLAIMED = {
         text="TLC explores every assignment of samples to workers, every interleaving, 1-2 phases, clock ticking or not, seed given or not, and checks Reproducible, NoSharedVariates, PreDrawnOnce, NoReseedToUsedState for the seeding discipline of the (repaired) engines; the pinned disciplines are kept as configurations that must violate them. Real standard and multilevel engines (direct HEM, HEM chain, coupled chain; fixed-level and adaptive; 1 and 2 processes; seed / no seed) are each run twice; every sample carries its process, generator fingerprint before/after, the identities of the pre-drawn rows it popped and a hash of its values; TLC validates: no two samples start from the same generator state or have equal values, every pre-drawn row popped once, no seed call lands on a state from which variates were already consumed, seeded single-process runs repeat bit for bit.",
         note="Trusted: TLC, class-level wrappers installed by the driver (no repo hooks), fingerprints (equality only). Known finding: worker processes pop private copies of the pre-drawn deques (C08-forked-deque-copies) - multi-process violations of PreDrawnOnce / NoSharedVariates are therefore reported as that finding.",
         ref="5 (C08)"),
+    "C12": dict(
+        technique="TLA+ spec CopulaMass.tla (direct atomic sum, the general recursion, the hard-coded 2-d / 3-d formulas branch by branch) model-checked by TLC on every lattice rectangle; every mass route of the real LevyCopulaModel over atomic models with their exact table copula trace-validated by TLC",
+        text="TLC checks that the general algorithm and both fast paths equal the direct sum, for all 144 (d=2) and 2646 (d=3) rectangles with ends in {+-2, +-4, +-inf} not containing the origin and for every sub-family of coordinates; non-negativity. The real _mass_nd, _mass_2d, _mass_3d, mass (all index subsets), additivity along every axis and the cached marginal tail integrals are recorded over several atomic models (shuffled call order) and TLC compares each number with the direct atomic sum.",
+        note="Trusted: TLC, atomic measure + table copula stubs. Known finding: end points exactly at 0 (C12-zero-endpoint). Equality with a joint density's integral and the inverse tail integral are not covered.",
+        ref="5 (C12)"),
+    "C19": dict(
+        technique="TLA+ spec Credit.tla (mass of the union of default half-spaces, inclusion-exclusion) model-checked by TLC; real CFLevyModel / CFLevyCopulaModel closed forms and the default-region rate of real chains on real credit grids trace-validated by TLC",
+        text="TLC checks Theta = inclusion-exclusion and monotonicity for all thresholds on a lattice, d = 1..3. On real CTMCCredit grids (1-d, 2-d, 3-d, symmetric / asymmetric, thresholds on cell boundaries) chains are built over atomic (copula) models; TLC validates: closed-form theta = mass of the union of the default half-spaces inside the truncation box = sum of the rates of the chain states with a coordinate below its threshold; survival probability and par spread recover theta exactly; implied threshold maps back to the same theta; implied spread = par spread at pv = 0 and satisfies the annuity relation between maturities T and 2T.",
+        note="Trusted: TLC, atomic stubs, rank / exact / quantised sensors. The implied-spread clauses are thin (quantised 1e-4, only inside the root finder's bracket).",
+        ref="5 (C19)"),
 }
 
 NOT_APPLICABLE = {
